@@ -307,6 +307,7 @@ def make_run(rng, k, prefix, fmt, idbase=0):
 
 
 def run(ctx):
+    ctx.liveness("Workdir", unfair_control=not ctx.quick)      # termination under weak fairness (Workdir_live.cfg)
     rng = np.random.default_rng(ctx.seed)
     ctx.phase("model_checking")
     ctx.model_check("Workdir", "Workdir_quick.cfg", note="3 runs x <=3 chunks x 2 prefixes x every crash step x Fail/Kill")
